@@ -60,6 +60,9 @@ func GenHistory(t *rapid.T, o GenOpts) []Op {
 		ops = append(ops, op)
 		return ok
 	}
+	if o.Assume && o.SetBase && rapid.IntRange(0, 3).Draw(t, "assume-before-base") == 0 {
+		add(Op{Kind: "assume_sep", V: uint32(rapid.SampledFrom([]byte{0x30, 0x20, 0x10}).Draw(t, "pre-mask"))})
+	}
 	if o.SetBase && rapid.IntRange(0, 2).Draw(t, "with-base") != 0 {
 		bank := rapid.SampledFrom([]uint32{0x00, 0x7e, 0x80, 0xff, 0x01, 0x3f}).Draw(t, "base-bank")
 		off := rapid.SampledFrom([]uint32{0x0000, 0x8000, 0x1000, 0xc000, 0x7ff0, 0x00f0}).Draw(t, "base-off")
@@ -189,9 +192,9 @@ func GenHistory(t *rapid.T, o GenOpts) []Op {
 			add(Op{Kind: "label", Label: lab})
 		}
 	}
-	if len(ops) > 0 && ops[0].Kind == "setbase" && len(m.Bytes) > 0 && rapid.IntRange(0, 3).Draw(t, "end-at-bank-end") == 0 {
+	if bi := BaseIndex(ops); bi >= 0 && len(m.Bytes) > 0 && rapid.IntRange(0, 3).Draw(t, "end-at-bank-end") == 0 {
 		// the program's last byte sits at $xx:FFFF
-		ops[0].V = ops[0].V&0xff0000 | uint32(0x10000-len(m.Bytes))&0xffff
+		ops[bi].V = ops[bi].V&0xff0000 | uint32(0x10000-len(m.Bytes))&0xffff
 	}
 	return ops
 }
@@ -204,3 +207,16 @@ var printable = func() []rune {
 	}
 	return r
 }()
+
+// BaseIndex returns the index of the SetBase call of a history (always before the first emission), or -1.
+func BaseIndex(ops []Op) int {
+	for i, o := range ops {
+		if o.Kind == "setbase" {
+			return i
+		}
+		if o.Need() > 0 {
+			break
+		}
+	}
+	return -1
+}
